@@ -12,8 +12,13 @@ Provided:
   * Lang algebra            a & b, a | b, ~a, a - b
   * decisions               compare / included / shortest / accepts / prefix_free / enumerate_shortest, each failure with a
                             SHORTEST witness string
-Unsupported regex constructs (back-references, look-around, \\b, possessive/atomic groups, IGNORECASE, MULTILINE, LOCALE,
-bytes patterns) raise AnalysisError - never guessed.
+  * as_re(L)                 any Lang as a regex node (an embedded automaton), so that concatenation / star / split-and-join
+                            constructions over arbitrary boolean combinations become expressible
+  * preimage / strip_preimage   { s : h(s) in L } for per-code-point string maps (lower, upper, replace of one character)
+                            and for str.strip-like trimming
+  * IGNORECASE              every one-character item of the pattern is tabulated by asking the platform `re` about each code point
+Unsupported regex constructs (back-references, look-around, \\b, possessive/atomic groups, MULTILINE, LOCALE, scoped inline
+flags, bytes patterns) raise AnalysisError - never guessed.
 
 Platform definitions: the Unicode predicates (`str.isdigit`, ... and the regex categories \\w \\d \\s) are tabulated by asking the
 running interpreter about every single code point; that is the definition the analysed code will meet, not repository code.
@@ -216,10 +221,38 @@ def from_table(name: str, table: Sequence[bool]) -> CharSet:
     return cs
 
 
+def tabulate(name: str, fn) -> CharSet:
+    """The set of code points c with fn(chr(c)) truthy, asked of the running interpreter for every code point; cached by name
+    (the name must identify fn)."""
+    cs = _pred_cache.get(name)
+    if cs is None:
+        cs = _runs(bytes(1 if fn(c) else 0 for c in _all_chars()))
+        _pred_cache[name] = cs
+    return cs
+
+
+_map_cache: Dict[str, Dict[int, str]] = {}
+
+
+def char_map(name: str, fn) -> Dict[int, str]:
+    """The code points whose image under the per-character string function fn differs from the character itself
+    (code point -> image), asked of the running interpreter for every code point; cached by name."""
+    d = _map_cache.get(name)
+    if d is None:
+        d = {}
+        for i, c in enumerate(_all_chars()):
+            img = fn(c)
+            if img != c:
+                d[i] = img
+        _map_cache[name] = d
+    return d
+
+
 # --------------------------------------------------------------------------------------
 # regular expressions (our own AST) and combinators
 # --------------------------------------------------------------------------------------
 # node forms:  ('eps',)  ('set', CharSet)  ('cat', [nodes])  ('alt', [nodes])  ('rep', node, lo, hi|None)  ('at', 'bos'|'eos'|'eos_nl')
+#              ('aut', n_states, accepting: frozenset, edges: ((p, CharSet, q), ...))   an embedded automaton, state 0 initial (see as_re)
 
 Re = tuple
 
@@ -281,6 +314,20 @@ def _re_sets(r: Re, out: set) -> bool:
         return _re_sets(r[1], out)
     if k == 'at':
         return r[1] == 'eos_nl'
+    if k == 'aut':
+        for _p, cs, _q in r[3]:
+            out.add(cs)
+    return False
+
+
+def _has_assertion(r: Re) -> bool:
+    k = r[0]
+    if k == 'at':
+        return True
+    if k in ('cat', 'alt'):
+        return any(_has_assertion(x) for x in r[1])
+    if k == 'rep':
+        return _has_assertion(r[1])
     return False
 
 
